@@ -559,8 +559,39 @@ class BufferConservation:
         self.cap_cold = run.case["cfg"]["cold"][0]
         self.flag = set()
         self.maxres = 0
+        self.rm_i = 0
+
+    def _freed_at_completion(self, run):
+        """the data is freed WHEN THE WORKFLOW COMPLETES: at the release no
+        task of that workflow may still be executing or not yet started"""
+        p = run.probe
+        calls = p.calls
+        while self.rm_i < len(calls):
+            c = calls[self.rm_i]
+            self.rm_i += 1
+            if c["kind"] != "hot_remove" or not c["ret"]:
+                continue
+            name = c["obs"]
+            oi = self.info["obs"].get(name)
+            if oi is None or ("early", name) in self.flag:
+                continue
+            live = [r["task"] for recs in p.live_dw.values() for r in recs
+                    if parse_tid(r["task"])[0] == name
+                    and parse_tid(r["task"])[1] == "wf"]
+            started = {parse_tid(a["task"])[2] for a in p.acts
+                       if a["kind"] == "do_work"
+                       and parse_tid(a["task"])[0] == name
+                       and parse_tid(a["task"])[1] == "wf"}
+            missing = sorted(set(oi["nodes"]) - started)
+            if live or missing:
+                self.flag.add(("early", name))
+                run.violate("C07.freed-equals-volume",
+                            "freed-before-the-workflow-completed",
+                            {"obs": name, "still_executing": live,
+                             "never_started": missing})
 
     def on_event(self, run):
+        self._freed_at_completion(run)
         hot = run.sim.buffer.hot[0]
         cold = run.sim.buffer.cold[0]
         for nm, b, cap in (("hot", hot, self.cap_hot),
